@@ -551,6 +551,15 @@ class Cells:
             return done(('adt', "std::result::Result", "Ok", {0: ('unit',), "0": ('unit',)}))
         if io_arg:
             st["io"].append(("foreign", name))
+            dty = body.locals[dest["l"]].get("ty") if "p" not in dest else None
+            dty = dty.get("s") if isinstance(dty, dict) else dty
+            if dty and norm(dty).startswith("std::result::Result"):
+                # some other reader / writer method: succeeds with an unknown value or fails
+                s_err = self.fork(st)
+                s_err["trace"].append("read_exact fails" if "Read" in raw else "write_all fails")
+                self.store(s_err, dest, ('adt', "std::result::Result", "Err", {0: ('opaque', 'io-error'), "0": ('opaque', 'io-error')}))
+                self.work.append((s_err, body, tgt))
+                return done(('adt', "std::result::Result", "Ok", {0: ('opaque', 'io-value'), "0": ('opaque', 'io-value')}))
             return done(('opaque', 'io-call'))
         if short in ("index", "index_mut") and len(args) == 2 and args[0][0] == 'ref':
             r, rg = args[0], args[1]
